@@ -24,6 +24,7 @@ func main() {
 	explain := flag.String("explain", "", "print a replay file")
 	goarch := flag.String("goarch", "", "GOARCH to load with (thorough tier adds 386)")
 	noEvidence := flag.Bool("no-evidence", false, "do not write evidence (used for scratch variants)")
+	dump := flag.String("dump", "", "debug: dump internal tables (slots)")
 	flag.Parse()
 	if *explain != "" {
 		b, err := os.ReadFile(*explain)
@@ -34,6 +35,16 @@ func main() {
 		var m map[string]any
 		_ = json.Unmarshal(b, &m)
 		fmt.Printf("property %v\nrule     %v\n         %v\nsite     %v\nkey      %v\nverdict  %v\n%v\n", m["property"], m["rule"], m["rule_statement"], m["pos"], m["key"], m["verdict"], m["detail"])
+		return
+	}
+	if *dump == "slots" {
+		abs, _ := filepath.Abs(*repo)
+		ctx, err := lint.Load(abs, "", lint.ModulePath, 11)
+		if err != nil {
+			fmt.Println(err)
+			os.Exit(2)
+		}
+		fmt.Print(ctx.BuildSlotTables().Dump())
 		return
 	}
 	run, ok := lint.Registry[*prop]
